@@ -7,6 +7,7 @@ import (
 	"math/rand"
 	"os"
 	"sort"
+	"strings"
 )
 
 // TraceWriter writes ndjson traces: a genesis line, then one line per event with
@@ -100,19 +101,19 @@ type Driver struct {
 
 // Profile holds event weights and value pools for one family of properties.
 type Profile struct {
-	Name     string
-	Nodes    []string // accounts that register as nodes in the setup
-	Gateways []string // nodes with the gateway bit
-	HotKeys  map[string][]string
-	PayAcc   map[string]string // did -> payment account
-	Sids     map[string]string // sid DIDs that own models: sid -> the account that creates it (its payment account); also in PayAcc
-	Weights  map[string]int
-	Sizes    []int64
-	Durs     []int64
-	Timeouts []int64
-	Caps     []int64
-	MaxData  int
-	Adversarial int // percent of events drawn from the adversarial pool
+	Name        string
+	Nodes       []string // accounts that register as nodes in the setup
+	Gateways    []string // nodes with the gateway bit
+	HotKeys     map[string][]string
+	PayAcc      map[string]string // did -> payment account
+	Sids        map[string]string // sid DIDs that own models: sid -> the account that creates it (its payment account); also in PayAcc
+	Weights     map[string]int
+	Sizes       []int64
+	Durs        []int64
+	Timeouts    []int64
+	Caps        []int64
+	MaxData     int
+	Adversarial int      // percent of events drawn from the adversarial pool
 	Replicas    []int64  // replica counts for new stores (default 1..3)
 	LateNodes   []string // accounts that may register as nodes later in the trace
 	RenewMulti  int      // percent of renewals that name several models of the owner (default 25)
@@ -120,6 +121,7 @@ type Profile struct {
 	ForcePush   int      // percent of updates that are force-pushes (default 25)
 	Staking     bool     // run x/staking's end-blocker too (profiles with staking messages)
 	ShortBlocks bool     // keep block advances short (reward traces stay inside the exact fragment)
+	MaxUnits    int64    // keep the pool's pledged capacity at or below this many units of 10^6 bytes (exact reward shares)
 }
 
 func (d *Driver) pick(xs []string) string { return xs[d.R.Intn(len(xs))] }
@@ -359,8 +361,10 @@ func (d *Driver) nextRaw() Event {
 				rep = d.pickI(d.P.Replicas)
 			}
 			e := Event{Kind: "Store", Creator: cr, Provider: pv, Gw: pv, Owner: owner, Signer: owner, Data: data, Commit: data, Op: 1, Dur: d.pickI(d.P.Durs), Replica: rep, Timeout: d.pickI(d.P.Timeouts), Size: d.pickI(d.P.Sizes), Alias: "al" + data}
-			if d.R.Intn(5) == 0 {
-				// let the owner's own account submit (bound-account path is did:sid only; for key dids this is the error path)
+			_, sidOwner := d.P.Sids[owner]
+			if d.R.Intn(5) == 0 || (sidOwner && d.R.Intn(2) == 0) {
+				// let the owner's own account submit: for a sid did's bound account the order is only recorded (pending) and the
+				// gateway has to declare itself Ready; for key dids this is the error path
 				e.Creator = d.P.PayAcc[owner]
 			}
 			if d.R.Intn(4) == 0 {
@@ -419,6 +423,19 @@ func (d *Driver) nextRaw() Event {
 			paydid := owner
 			if d.R.Intn(2) == 0 {
 				paydid = d.pick(d.ownerDids())
+			}
+			if d.R.Intn(3) == 0 {
+				// an owner who has no payment address of his own (a key did nobody registered one for): only a sponsor can pay;
+				// every later refund of this order has nowhere obvious to go
+				for _, x := range d.allKeyDids() {
+					if _, has := d.P.PayAcc[x]; !has {
+						owner = x
+						break
+					}
+				}
+				if paydid == owner {
+					paydid = d.pick(d.ownerDids())
+				}
 			}
 			creator := d.P.PayAcc[paydid]
 			switch d.R.Intn(3) {
@@ -648,7 +665,7 @@ func (d *Driver) nextRaw() Event {
 		case "ResetSuper":
 			n := d.pick(d.P.Nodes)
 			st := []int64{15, 15, 15, 13, 7, 0}[d.R.Intn(6)]
-			val := []string{"", "", "v1", "v2"}[d.R.Intn(4)]
+			val := []string{"", "", "v1", "v2", "v1", "v2", "v9"}[d.R.Intn(7)] // v9: no such validator
 			return Event{Kind: "Reset", Creator: n, Status: st, Val: val, Tx: d.P.HotKeys[n]}
 		case "ReportFaults", "RecoverFaults":
 			reporters := append(append([]string{}, d.C.Cfg.Fishmen...), d.P.Nodes...)
@@ -836,6 +853,9 @@ func (d *Driver) nextRaw() Event {
 			return Event{Kind: "Claim", Creator: n}
 		case "AddVstorage":
 			n := d.pick(d.P.Nodes)
+			if d.P.MaxUnits > 0 && d.St.Pool.Storage+2000000 > d.P.MaxUnits*1000000 {
+				return Event{Kind: "RemoveVstorage", Creator: n, Size: d.pickI(d.P.Caps)}
+			}
 			if d.P.Staking && d.R.Intn(100) < 40 {
 				// a node that holds stake with its declared validator but not the role: every capacity change of such a
 				// node re-decides the role, also the ones that stay below (or cross) the capacity threshold by little
@@ -921,6 +941,14 @@ func (d *Driver) allAccounts() []string {
 	var out []string
 	for _, a := range d.C.Accs {
 		out = append(out, a.Name)
+	}
+	return out
+}
+
+func (d *Driver) allKeyDids() []string {
+	var out []string
+	for _, x := range d.C.Dids {
+		out = append(out, x.Name)
 	}
 	return out
 }
@@ -1020,6 +1048,10 @@ func (d *Driver) Twist(e Event) Event {
 				case 3:
 					e.Timeout = 0
 				}
+				return e
+			}
+			if e.Kind == "Renew" {
+				e.Dur = []int64{3599, 0, 63072001}[d.R.Intn(3)] // below the minimum / above the maximum renewal term
 				return e
 			}
 			if e.Kind == "Complete" {
@@ -1152,7 +1184,7 @@ func (d *Driver) Run(n int) {
 		return
 	}
 	d.Setup()
-	if d.P.Name == "poor" {
+	if strings.HasPrefix(d.P.Name, "poor") {
 		for _, nd := range d.P.Nodes {
 			if bal := d.St.Bal[nd]; bal > 14 {
 				d.do(Event{Kind: "Send", Creator: nd, Acc: "a12", Amount: bal - int64(6+d.R.Intn(8))})
